@@ -112,13 +112,13 @@ func TestC05(t *testing.T) {
 		r.Exhaustive(fmt.Sprintf("all %d keywords and universe names x 5 modes x 4 prefixes", len(imps.Reserved())))
 	}
 
-	// (a') count thresholds: 2..70 paths that all want the same name (the k-th one gets the suffix
+	// (a') count thresholds: 2..257 paths that all want the same name (the k-th one gets the suffix
 	// k-1: int8, int16, uint32, float32, complex64 are reserved words that suffixing can produce)
 	ckM := hx.Check[manyCase]{Name: "many_same_base", Fn: func(c manyCase) error { return check(c.scenario()) }}
 	if !hx.Replay(r, ckM) && r.Shard == 0 {
 		for _, base := range []string{"int", "uint", "float", "complex", "d", "rune1", "x_"} {
 			for _, prefix := range []string{"", "pkg"} {
-				for _, n := range []int{2, 7, 8, 9, 16, 17, 31, 32, 33, 63, 64, 65, 70} {
+				for _, n := range []int{2, 7, 8, 9, 10, 11, 12, 16, 17, 31, 32, 33, 63, 64, 65, 70, 99, 100, 101, 102, 129, 257} {
 					c := manyCase{Base: base, N: n, Prefix: prefix, Hint: n%2 == 0}
 					hx.One(r, ckM, c)
 					r.NonTrivial(fmt.Sprintf("%+v", c))
